@@ -23,10 +23,16 @@
    Dev_C07_reuse_ignores_limit, see known_findings.json): the first thing connect()
    does is take an idle pooled connection of its key WITHOUT consulting
    _available_connections(); with two endpoints this exceeds `limit`.
-   ReuseChecksLimit = TRUE is the ideal design in which that fast path is guarded.   *)
+   ReuseChecksLimit = TRUE is the ideal design in which that fast path is guarded.
+
+   Traced = callers with a TraceConfig whose callbacks suspend.  TraceLeakFix /
+   ReuseLeakFix = TRUE model the repaired code: a connection whose create_end /
+   reuseconn trace callback is cancelled (or raises) is closed; FALSE is the code as
+   found, where that connection stayed open and tracked by nobody (NoUntracked).      *)
 EXTENDS Naturals, Sequences, FiniteSets, TLC
 
-CONSTANTS Tasks, Keys, KeyOf, L, Lh, Handoff, ReuseChecksLimit, MaxCancel, MaxFail, AllowClose, AllowPeerClose
+CONSTANTS Tasks, Keys, KeyOf, L, Lh, Handoff, ReuseChecksLimit, MaxCancel, MaxFail, AllowClose, AllowPeerClose,
+          Traced, TraceLeakFix, ReuseLeakFix
 
 VARIABLES pc, holds, acquired, acqHost, idle, alive, waiters, fut, cres, ready,
           mustCancel, closed, nCancel, nFail, attempts
@@ -80,7 +86,9 @@ ReleaseWaiterOutcomes(acq, acqH, w, f, r) ==
                  t == Head(q)
              IN [w |-> [w EXCEPT ![k] = Tail(q)],
                  f |-> [f EXCEPT ![t] = "done"],
-                 r |-> Append(r, t)] : k \in elig}
+                 \* the wake-up is scheduled only if the task is suspended in `await fut`
+                 \* (a traced caller may still be inside its queued_start callback)
+                 r |-> IF pc[t] = "waiting" THEN Append(r, t) ELSE r] : k \in elig}
 
 \* _release_acquired(key, handle) followed by _release_waiter()
 ReleaseAcquired(k, h, w, f, r) ==
@@ -92,12 +100,17 @@ ReleaseAcquired(k, h, w, f, r) ==
 
 (* ---------------------------------------------------------------------- *)
 (* connect(): body from the call (or from a successful wake-up) on.         *)
+(* Callers in Traced have a TraceConfig whose connection_* callbacks suspend *)
+(* for one loop turn (await sleep(0)): each `await trace.send_...()` is an   *)
+(* extra suspension point - pcs qstart, qend, cstart, cend, reuse.           *)
 
 RECURSIVE FirstAlive(_)
 FirstAlive(q) == IF q = <<>> THEN <<>> ELSE IF alive[Head(q)] THEN q ELSE FirstAlive(Tail(q))
 
+Tr(t) == t \in Traced
+
 \* _get(): reuse the first idle connection that is still connected, dropping dead ones
-GetIdle(t, f2) ==
+GetIdle(t, f2, r0) ==
     LET k == KeyOf[t]
         q == FirstAlive(idle[k])
     IN /\ q # <<>>
@@ -105,38 +118,93 @@ GetIdle(t, f2) ==
        /\ acquired' = acquired \cup {Co(Head(q))}
        /\ acqHost' = IF Lh > 0 THEN [acqHost EXCEPT ![k] = @ \cup {Co(Head(q))}] ELSE acqHost
        /\ holds' = [holds EXCEPT ![t] = Head(q)]
-       /\ pc' = [pc EXCEPT ![t] = "holding"]
+       /\ pc' = [pc EXCEPT ![t] = IF Tr(t) THEN "reuse" ELSE "holding"]   \* await send_connection_reuseconn()
+       /\ ready' = IF Tr(t) THEN Append(r0, t) ELSE r0
        /\ fut' = f2
        /\ UNCHANGED <<alive, waiters, cres, closed, nCancel, nFail, attempts>>
 
 NoIdle(t) == FirstAlive(idle[KeyOf[t]]) = <<>>
 
-Reserve(t, f2) ==   \* placeholder; then await _create_connection()
+Reserve(t, f2, r0) ==   \* placeholder; then (traced: await create_start;) await _create_connection()
     LET k == KeyOf[t] IN
     /\ idle' = [idle EXCEPT ![k] = <<>>]      \* dead idle connections were dropped by _get
     /\ acquired' = acquired \cup {Ph(t)}
     /\ acqHost' = IF Lh > 0 THEN [acqHost EXCEPT ![k] = @ \cup {Ph(t)}] ELSE acqHost
-    /\ cres' = [cres EXCEPT ![t] = "pending"]
-    /\ pc' = [pc EXCEPT ![t] = "creating"]
+    /\ cres' = [cres EXCEPT ![t] = IF Tr(t) THEN "none" ELSE "pending"]
+    /\ pc' = [pc EXCEPT ![t] = IF Tr(t) THEN "cstart" ELSE "creating"]
+    /\ ready' = IF Tr(t) THEN Append(r0, t) ELSE r0
     /\ fut' = f2
     /\ UNCHANGED <<holds, alive, waiters, closed, nCancel, nFail, attempts>>
 
-Enqueue(t, front) ==
+Enqueue(t, front, r0) ==
     LET k == KeyOf[t] IN
     /\ waiters' = [waiters EXCEPT ![k] = IF front THEN <<t>> \o @ ELSE Append(@, t)]
     /\ fut' = [fut EXCEPT ![t] = "pending"]
-    /\ pc' = [pc EXCEPT ![t] = "waiting"]
+    /\ pc' = [pc EXCEPT ![t] = IF Tr(t) THEN "qstart" ELSE "waiting"]      \* await send_connection_queued_start()
+    /\ ready' = IF Tr(t) THEN Append(r0, t) ELSE r0
     /\ UNCHANGED <<holds, acquired, acqHost, alive, cres, closed, nCancel, nFail>>
 
 \* first step of connect()
-ConnectBody(t) ==
+ConnectBody(t, r0) ==
     \/ /\ (ReuseChecksLimit => Avail(KeyOf[t]) > 0)
-       /\ GetIdle(t, fut)
+       /\ GetIdle(t, fut, r0)
     \/ /\ NoIdle(t) \/ (ReuseChecksLimit /\ Avail(KeyOf[t]) <= 0)
        /\ IF Avail(KeyOf[t]) <= 0
-          THEN Enqueue(t, FALSE) /\ UNCHANGED attempts
+          THEN Enqueue(t, FALSE, r0) /\ UNCHANGED attempts
                /\ idle' = IF NoIdle(t) THEN [idle EXCEPT ![KeyOf[t]] = <<>>] ELSE idle
-          ELSE Reserve(t, fut)
+          ELSE Reserve(t, fut, r0)
+
+\* after a wake-up (and the queued_end trace): re-check capacity
+Recheck(t, r0) ==
+    IF Avail(KeyOf[t]) > 0
+    THEN \/ GetIdle(t, [fut EXCEPT ![t] = "none"], r0)
+         \/ NoIdle(t) /\ Reserve(t, [fut EXCEPT ![t] = "none"], r0)
+    ELSE \* slot was taken meanwhile: queue again, at the front
+         /\ Enqueue(t, TRUE, r0)
+         /\ attempts' = [attempts EXCEPT ![t] = @ + 1]
+         /\ UNCHANGED idle
+
+\* an exception (CancelledError) leaves _wait_for_available_connection(): finally pops the
+\* caller's future; the repaired code passes a wake-up it had already received on
+LeaveWait(t, r0) ==
+    LET k == KeyOf[t]
+        w1 == [waiters EXCEPT ![k] = Remove(@, t)]
+        outs == IF Handoff /\ fut[t] = "done" /\ ~closed
+                THEN ReleaseWaiterOutcomes(acquired, acqHost, w1, fut, r0)
+                ELSE {[w |-> w1, f |-> fut, r |-> r0]}
+    IN \E o \in outs :
+         /\ waiters' = o.w
+         /\ fut' = [o.f EXCEPT ![t] = "none"]
+         /\ ready' = o.r
+         /\ pc' = [pc EXCEPT ![t] = "cancelled"]
+         /\ mustCancel' = [mustCancel EXCEPT ![t] = FALSE]
+         /\ UNCHANGED <<holds, acquired, acqHost, idle, alive, cres, closed, nCancel, nFail, attempts>>
+
+\* except BaseException around the creation: the placeholder is released (and a waiter woken)
+DropPlaceholder(t, r0, how, closeConn) ==
+    \E o \in ReleaseAcquired(KeyOf[t], Ph(t), waiters, fut, r0) :
+         /\ acquired' = o.a /\ acqHost' = o.ah /\ waiters' = o.w /\ fut' = o.f /\ ready' = o.r
+         /\ pc' = [pc EXCEPT ![t] = how]
+         /\ alive' = IF closeConn THEN [alive EXCEPT ![t] = FALSE] ELSE alive
+         /\ cres' = [cres EXCEPT ![t] = "none"]
+         /\ mustCancel' = [mustCancel EXCEPT ![t] = FALSE]
+         /\ UNCHANGED <<holds, idle, closed, nCancel, nFail, attempts>>
+
+\* creation succeeded: swap the placeholder for the protocol (or fail if the connector was closed)
+FinishCreate(t, r0) ==
+    LET k == KeyOf[t] IN
+    /\ ready' = r0 /\ UNCHANGED mustCancel
+    /\ IF closed
+       THEN /\ pc' = [pc EXCEPT ![t] = "failed"]       \* proto.close(); raise
+            /\ alive' = [alive EXCEPT ![t] = FALSE]
+            /\ UNCHANGED <<holds, acquired, acqHost>>
+       ELSE /\ pc' = [pc EXCEPT ![t] = "holding"]
+            /\ holds' = [holds EXCEPT ![t] = t]
+            /\ acquired' = (acquired \ {Ph(t)}) \cup {Co(t)}
+            /\ acqHost' = IF Lh > 0 THEN [acqHost EXCEPT ![k] = (@ \ {Ph(t)}) \cup {Co(t)}] ELSE acqHost
+            /\ UNCHANGED alive
+    /\ cres' = [cres EXCEPT ![t] = "none"]
+    /\ UNCHANGED <<idle, waiters, fut, closed, nCancel, nFail, attempts>>
 
 (* ---------------------------------------------------------------------- *)
 (* One loop step: run the head of the ready queue.                           *)
@@ -152,53 +220,56 @@ Step(t) ==
                    /\ mustCancel' = [mustCancel EXCEPT ![t] = FALSE]
                    /\ ready' = r0
                    /\ UNCHANGED <<holds, acquired, acqHost, idle, alive, waiters, fut, cres, closed, nCancel, nFail, attempts>>
-              ELSE ConnectBody(t) /\ ready' = r0 /\ UNCHANGED mustCancel
+              ELSE ConnectBody(t, r0) /\ UNCHANGED mustCancel
+         [] pc[t] = "qstart" ->      \* back from the queued_start callback; now `await fut`
+              IF cancelled THEN LeaveWait(t, r0)
+              ELSE IF fut[t] = "done"
+                   THEN \* already woken: `await fut` does not suspend; straight into queued_end
+                        /\ pc' = [pc EXCEPT ![t] = "qend"] /\ ready' = Append(r0, t)
+                        /\ UNCHANGED <<holds, acquired, acqHost, idle, alive, waiters, fut, cres, mustCancel, closed, nCancel, nFail, attempts>>
+                   ELSE IF fut[t] = "cancelled" THEN LeaveWait(t, r0)     \* connector closed meanwhile
+                   ELSE /\ pc' = [pc EXCEPT ![t] = "waiting"] /\ ready' = r0
+                        /\ UNCHANGED <<holds, acquired, acqHost, idle, alive, waiters, fut, cres, mustCancel, closed, nCancel, nFail, attempts>>
          [] pc[t] = "waiting" ->
               IF cancelled \/ fut[t] = "cancelled"
-              THEN \* CancelledError out of `await fut`; finally: pop own future
-                   LET w1 == [waiters EXCEPT ![k] = Remove(@, t)]
-                       outs == IF Handoff /\ fut[t] = "done" /\ ~closed
-                               THEN ReleaseWaiterOutcomes(acquired, acqHost, w1, fut, r0)
-                               ELSE {[w |-> w1, f |-> fut, r |-> r0]}
-                   IN \E o \in outs :
-                        /\ waiters' = o.w
-                        /\ fut' = [o.f EXCEPT ![t] = "none"]
-                        /\ ready' = o.r
-                        /\ pc' = [pc EXCEPT ![t] = "cancelled"]
-                        /\ mustCancel' = [mustCancel EXCEPT ![t] = FALSE]
-                        /\ UNCHANGED <<holds, acquired, acqHost, idle, alive, cres, closed, nCancel, nFail, attempts>>
-              ELSE \* woken normally: fut[t] = "done"
-                   /\ UNCHANGED mustCancel
-                   /\ ready' = r0
-                   /\ IF Avail(k) > 0
-                      THEN \/ GetIdle(t, [fut EXCEPT ![t] = "none"])
-                           \/ NoIdle(t) /\ Reserve(t, [fut EXCEPT ![t] = "none"])
-                      ELSE \* slot was taken meanwhile: queue again, at the front
-                           /\ Enqueue(t, TRUE)
-                           /\ attempts' = [attempts EXCEPT ![t] = @ + 1]
-                           /\ UNCHANGED idle
+              THEN LeaveWait(t, r0)       \* CancelledError out of `await fut`
+              ELSE IF Tr(t)
+                   THEN /\ pc' = [pc EXCEPT ![t] = "qend"] /\ ready' = Append(r0, t)   \* await queued_end
+                        /\ UNCHANGED <<holds, acquired, acqHost, idle, alive, waiters, fut, cres, mustCancel, closed, nCancel, nFail, attempts>>
+                   ELSE Recheck(t, r0) /\ UNCHANGED mustCancel
+         [] pc[t] = "qend" ->
+              IF cancelled THEN LeaveWait(t, r0)
+              ELSE Recheck(t, r0) /\ UNCHANGED mustCancel
+         [] pc[t] = "cstart" ->      \* back from the create_start callback; now await _create_connection()
+              IF cancelled THEN DropPlaceholder(t, r0, "cancelled", FALSE)
+              ELSE /\ pc' = [pc EXCEPT ![t] = "creating"] /\ cres' = [cres EXCEPT ![t] = "pending"] /\ ready' = r0
+                   /\ UNCHANGED <<holds, acquired, acqHost, idle, alive, waiters, fut, mustCancel, closed, nCancel, nFail, attempts>>
          [] pc[t] = "creating" ->
               IF cres[t] = "ok" /\ ~cancelled
-              THEN /\ ready' = r0 /\ UNCHANGED mustCancel
-                   /\ IF closed
-                      THEN /\ pc' = [pc EXCEPT ![t] = "failed"]       \* proto.close(); raise
-                           /\ alive' = [alive EXCEPT ![t] = FALSE]
-                           /\ UNCHANGED <<holds, acquired, acqHost>>
-                      ELSE /\ pc' = [pc EXCEPT ![t] = "holding"]
-                           /\ holds' = [holds EXCEPT ![t] = t]
-                           /\ acquired' = (acquired \ {Ph(t)}) \cup {Co(t)}
-                           /\ acqHost' = IF Lh > 0 THEN [acqHost EXCEPT ![k] = (@ \ {Ph(t)}) \cup {Co(t)}] ELSE acqHost
-                           /\ UNCHANGED alive
-                   /\ cres' = [cres EXCEPT ![t] = "none"]
-                   /\ UNCHANGED <<idle, waiters, fut, closed, nCancel, nFail, attempts>>
-              ELSE \* creation failed or the task was cancelled: except BaseException: release placeholder
-                   \E o \in ReleaseAcquired(k, Ph(t), waiters, fut, r0) :
+              THEN IF Tr(t)
+                   THEN /\ pc' = [pc EXCEPT ![t] = "cend"] /\ ready' = Append(r0, t)    \* await create_end
+                        /\ UNCHANGED <<holds, acquired, acqHost, idle, alive, waiters, fut, cres, mustCancel, closed, nCancel, nFail, attempts>>
+                   ELSE FinishCreate(t, r0)
+              ELSE \* creation failed or the task was cancelled; a connection completed concurrently is dropped
+                   DropPlaceholder(t, r0, IF cancelled \/ cres[t] = "cancelled" THEN "cancelled" ELSE "failed", TRUE)
+         [] pc[t] = "cend" ->
+              IF cancelled
+              THEN \* TraceLeakFix: the new connection is closed; code as found: it stays open, tracked by nobody
+                   DropPlaceholder(t, r0, "cancelled", TraceLeakFix)
+              ELSE FinishCreate(t, r0)
+         [] pc[t] = "reuse" ->       \* back from the reuseconn callback
+              IF cancelled
+              THEN \* except BaseException: _release_acquired(key, proto); raise  - the connection taken
+                   \* from the pool is neither closed nor put back (ReuseLeakFix closes it)
+                   \E o \in ReleaseAcquired(k, Co(holds[t]), waiters, fut, r0) :
                         /\ acquired' = o.a /\ acqHost' = o.ah /\ waiters' = o.w /\ fut' = o.f /\ ready' = o.r
-                        /\ pc' = [pc EXCEPT ![t] = IF cancelled \/ cres[t] = "cancelled" THEN "cancelled" ELSE "failed"]
-                        /\ alive' = [alive EXCEPT ![t] = FALSE]   \* a connection completed concurrently is dropped
-                        /\ cres' = [cres EXCEPT ![t] = "none"]
+                        /\ pc' = [pc EXCEPT ![t] = "cancelled"]
+                        /\ alive' = IF ReuseLeakFix THEN [alive EXCEPT ![holds[t]] = FALSE] ELSE alive
+                        /\ holds' = [holds EXCEPT ![t] = NoConn]
                         /\ mustCancel' = [mustCancel EXCEPT ![t] = FALSE]
-                        /\ UNCHANGED <<holds, idle, closed, nCancel, nFail, attempts>>
+                        /\ UNCHANGED <<idle, cres, closed, nCancel, nFail, attempts>>
+              ELSE /\ pc' = [pc EXCEPT ![t] = "holding"] /\ ready' = r0
+                   /\ UNCHANGED <<holds, acquired, acqHost, idle, alive, waiters, fut, cres, mustCancel, closed, nCancel, nFail, attempts>>
          [] OTHER -> FALSE
 
 (* ---------------------------------------------------------------------- *)
@@ -227,7 +298,7 @@ InReady(t) == t \in SeqToSet(ready)
 
 Cancel(t) ==        \* Task.cancel(): by the caller, by wait_for, or by the connect timeout
     /\ nCancel < MaxCancel
-    /\ pc[t] \in {"spawned", "waiting", "creating"}
+    /\ pc[t] \in {"spawned", "waiting", "creating", "qstart", "qend", "cstart", "cend", "reuse"}
     /\ ~mustCancel[t] /\ fut[t] # "cancelled" /\ cres[t] # "cancelled"
     /\ nCancel' = nCancel + 1
     /\ IF pc[t] = "waiting" /\ fut[t] = "pending"
@@ -274,7 +345,7 @@ Close ==                   \* connector.close() -> _close_immediately()
            AppendAll(r, ks) ==
               IF ks = {} THEN r
               ELSE LET k == CHOOSE x \in ks : TRUE
-                   IN AppendAll(r \o SelectSeq(waiters[k], LAMBDA t : fut[t] = "pending"), ks \ {k})
+                   IN AppendAll(r \o SelectSeq(waiters[k], LAMBDA t : fut[t] = "pending" /\ pc[t] = "waiting"), ks \ {k})
        IN /\ fut' = [t \in Tasks |-> IF t \in pend THEN "cancelled" ELSE fut[t]]
           /\ ready' = AppendAll(ready, Keys)
     /\ waiters' = [k \in Keys |-> <<>>]
@@ -292,7 +363,7 @@ FairSpec == Spec /\ \A t \in Tasks : WF_vars(Step(t)) /\ WF_vars(Release(t, FALS
 
 (* ---------------------------------------------------------------------- *)
 (* Properties                                                               *)
-InUse == {t \in Tasks : pc[t] \in {"creating", "holding"}}
+InUse == {t \in Tasks : pc[t] \in {"cstart", "creating", "cend", "reuse", "holding"}}
 InUseK(k) == {t \in InUse : KeyOf[t] = k}
 
 \* what an observer outside the connector can count
@@ -306,8 +377,15 @@ LimitInv ==
     /\ Lh > 0 => \A k \in Keys : Cardinality(acqHost[k]) <= Lh
 
 Accounting ==
-    ~closed => acquired = {Ph(t) : t \in {x \in Tasks : pc[x] = "creating"}}
-                          \cup {Co(holds[t]) : t \in {x \in Tasks : pc[x] = "holding"}}
+    ~closed => acquired = {Ph(t) : t \in {x \in Tasks : pc[x] \in {"cstart", "creating", "cend"}}}
+                          \cup {Co(holds[t]) : t \in {x \in Tasks : pc[x] \in {"holding", "reuse"}}}
+
+\* every open connection is known to somebody who will close or pool it
+NoUntracked ==
+    \A c \in Tasks : alive[c] =>
+        \/ \E k \in Keys : c \in SeqToSet(idle[k])
+        \/ \E t \in Tasks : holds[t] = c /\ pc[t] \in {"holding", "reuse"}
+        \/ pc[c] \in {"creating", "cend"}
 
 \* a waiter whose future is pending, while a slot it could use is free and the loop is idle
 LostWake ==
